@@ -35,11 +35,27 @@ func c09Gen(c *core.Ctx) func(yield func(c09Case) bool) {
 	return func(yield func(c09Case) bool) {
 		alpha := []int{scen.ENone, scen.EName, scen.ESlice}
 		allGraphs(3, alpha, false, func(e [][]int) bool {
-			for _, lz := range []int{0, 1, 4} {
+			masks := []int{0, 1, 4}
+			obs := []int{1}
+			if c.Thorough() {
+				masks = []int{0, 1, 2, 3, 4, 5, 6, 7}
+				obs = []int{1, 2}
+			}
+			for _, lz := range masks {
 				lazy := []bool{lz&1 == 1, lz&2 == 2, lz&4 == 4}
-				p := scen.GraphProg{N: 3, Edges: e, Lazy: lazy, Obs: 1, Config: true, Full: true, Faults: true, Kinds: "F", Family: "n3-full"}
-				if !yield(c09Case{p, 2}) {
-					return false
+				for _, ob := range obs {
+					for _, desc := range []bool{false, true} {
+						if desc && !c.Thorough() {
+							continue
+						}
+						p := scen.GraphProg{N: 3, Edges: e, Lazy: lazy, Obs: ob, Config: true, Full: true, Faults: true, Kinds: "F", Family: "n3-full"}
+						if desc {
+							p.Base = []int{2, 1, 0}
+						}
+						if !yield(c09Case{p, 2}) {
+							return false
+						}
+					}
 				}
 			}
 			return true
@@ -65,7 +81,7 @@ func c09Faults(c *core.Ctx) {
 			cc.Choices = ch.Choices()
 			armed := o.RT.Armed
 			key := func(kind string) string {
-				return "C09/" + kind + "/" + core.Hash(p.N, p.Edges, p.Lazy, cc.Choices)
+				return "C09/" + kind + "/" + core.Hash(p.N, p.Edges, p.Lazy, p.Obs, p.Base, cc.Choices)
 			}
 			cls := func(s string) string { return strings.SplitN(s, ":", 2)[0] }
 			sig := fmt.Sprintf("armed=%d", len(armed))
